@@ -157,7 +157,7 @@ CLAIMS["C11"] = {
 CLAIMS["C12"] = {
     "text": "Theorems over the registry model: after every legal sequence of open/close/pick events the registry's pools hold exactly the open tunnels, per key (C12_exact, "
             "C12_all), a routed RPC goes to an open tunnel of the right key (C12_routed_open, C12_routed_right_key), unavailable iff no tunnel for the key (C12_unavailable_iff, "
-            "C12_ready), and picks rotate fairly: n consecutive picks over n tunnels are a permutation (C12_round_robin, _key, _all). Tied to the code by the registry world: real "
+            "C12_ready), and picks rotate fairly: n consecutive picks over n tunnels are a permutation (C12_round_robin, _key, _all), hence no tunnel starves or repeats within a round (C12_no_starvation, C12_no_repeat_in_round). Tied to the code by the registry world: real "
             "TunnelServiceHandler + ReverseTunnelServer over grpc-go on bufconn, random open/close/pick sequences, AllReverseTunnels/KeyAsChannel/Ready compared with the model; WaitForReady over the channel-identity model (C12_no_lost_wakeup, C12_wait_iff_ready, C12_latch, C12_waiters_refine_pool); "
             "and the free-running registry world: per round a fresh affinity key, 2-4 registrations released together by a barrier inside the AffinityKey callback, optionally a concurrent "
             "WaitForReady; once all open callbacks fired the registry must be exactly those tunnels (enumeration, Ready, n routed RPCs reach n distinct tunnels, waiter released, nothing left "
